@@ -134,7 +134,7 @@ pub fn sqs(v: &[Sq]) -> Vec<String> {
 pub const RULE: &str = "states = every position of the bounded trees (incl. up to 2 null moves per path), families and their children; each judged: checkers() == reference attackers of the mover's king; pinned() & own men == reference absolutely-pinned set (by definition: removing the man exposes the king); pieces/colour/combined bitboards and piece_on/color_on/king_square mutually consistent and equal to the reference placement; board == same position built through the builder; board == Board::from_str(board.to_string()). distinct_nontrivial = judged states with a check or a pinned man";
 
 pub fn run(tier: Tier) -> i32 {
-    let (run, _) = run_e1("C03", tier, COUNTERS, C03, with_ep_slider_positions(standard_plan(tier, 1), tier), RULE, &[]);
+    let (run, _) = run_e1("C03", tier, COUNTERS, C03, with_line_geometry(with_ep_slider_positions(standard_plan(tier, 1), tier), true, tier.pick(0, 1)), RULE, &[]);
     finish(&run, RULE)
 }
 pub fn replay(case: &Value) -> i32 {
